@@ -149,6 +149,64 @@ int main(int argc, char** argv) {
     c.count("progress_callback_calls", prog_calls.load());
     if (i < 3) c.sample("stress " + desc);
   }
+  // Very long runs per worker and very long ranges (shard 0/1 only: each costs a second or two):
+  //  * blocks much larger than any power-of-two polling period, a few blocks, few threads: every value exactly once;
+  //  * ranges whose LENGTH is a multiple of 2^32 (a 32-bit truncation of the length gives 0) with an early hit:
+  //    the hit must be found, with the default and with an explicit thread count.
+  if (c.shard < 2) {
+    for (int rep = 0; rep < 2; rep++) {
+      uint64_t block = rep == 0 ? 1500000 : 1048577 + 1000 * c.shard;
+      uint64_t nblocks = 2 + rep;
+      uint64_t n = block * nblocks, start = 7;
+      size_t nthreads = 1 + (size_t)((rep + c.shard) % 2);
+      std::vector<std::atomic<uint8_t>> cnt(n);
+      for (auto& x : cnt) x.store(0, std::memory_order_relaxed);
+      std::atomic<uint64_t> outside{0};
+      std::string desc = fmt("blocks<u64> threads=%zu start=%" PRIu64 " n=%" PRIu64 " block=%" PRIu64 " (huge blocks)", nthreads, start, n, block);
+      c.crumb_s(desc);
+      std::function<bool(uint64_t, size_t)> fn = [&](uint64_t v, size_t) -> bool {
+        if (v < start || v >= start + n) { outside++; return false; }
+        cnt[v - start].fetch_add(1, std::memory_order_relaxed);
+        return false;
+      };
+      uint64_t res = 0;
+      std::unordered_set<uint64_t> multi;
+      try {
+        if (rep == 0) res = phosg::parallel_range_blocks<uint64_t>(fn, start, start + n, block, nthreads, nullptr);
+        else { multi = phosg::parallel_range_blocks_multi<uint64_t>(fn, start, start + n, block, nthreads, nullptr); res = start + n; }
+      } catch (const std::exception& e) { c.violation("stress:huge-blocks:unexpected-exception", e.what(), desc); }
+      c.evaluations++;
+      uint64_t missing = 0, twice = 0;
+      for (uint64_t j = 0; j < n; j++) { unsigned x = cnt[j].load(std::memory_order_relaxed); if (x == 0) missing++; else if (x > 1) twice++; }
+      if (missing) c.violation("stress:huge-blocks:value-not-exactly-once", fmt("%" PRIu64 " values never invoked", missing), desc);
+      if (twice) c.violation("stress:huge-blocks:value-invoked-twice", fmt("%" PRIu64 " values invoked more than once", twice), desc);
+      if (outside.load()) c.violation("stress:huge-blocks:value-outside-range", "callback outside [start,end)", desc);
+      if (res != start + n || !multi.empty()) c.violation("stress:huge-blocks:return-not-end", "wrong result without any hit", desc);
+      c.cls(fmt("stress:huge-blocks:%s", rep == 0 ? "blocks" : "multi"));
+    }
+    for (int rep = 0; rep < 4; rep++) {
+      uint64_t start = rep & 1 ? 1000 : 0;
+      uint64_t len = (rep & 2) ? (2ULL << 32) : (1ULL << 32);
+      uint64_t end = start + len, hit = start + 5 + rep;
+      size_t pass_threads = (rep == 1) ? 3 : 0;  // 0 = documented default
+      std::atomic<uint64_t> calls{0}, outside{0};
+      std::string desc = fmt("range<u64> num_threads=%zu start=%" PRIu64 " length=2^32*%d hit=%" PRIu64, pass_threads, start, (rep & 2) ? 2 : 1, hit);
+      c.crumb_s(desc);
+      std::function<bool(uint64_t, size_t)> fn = [&](uint64_t v, size_t) -> bool {
+        calls++;
+        if (v < start || v >= end) outside++;
+        return v == hit;
+      };
+      uint64_t res = end;
+      try { res = phosg::parallel_range<uint64_t>(fn, start, end, pass_threads, nullptr); }
+      catch (const std::exception& e) { c.violation("stress:2^32-range:unexpected-exception", e.what(), desc); }
+      c.evaluations++;
+      if (res != hit) c.violation("stress:2^32-range:result-not-a-hit", fmt("returned %" PRIu64 " after %" PRIu64 " calls, the hit is %" PRIu64, res, calls.load(), hit), desc);
+      if (outside.load()) c.violation("stress:2^32-range:value-outside-range", "callback outside [start,end)", desc);
+      c.cls(fmt("stress:2^32-range:%s", pass_threads ? "explicit-threads" : "default-threads"));
+    }
+  }
+
   // Narrow cursor types with ranges that span most of the type (but stay clear of the documented overshoot wrap:
   // end + num_threads*block <= max): every value exactly once / hit found, also for uint8_t, uint16_t, int16_t, uint32_t.
   {
